@@ -5,6 +5,7 @@ import (
 	"io"
 	"regexp"
 	"strings"
+	"unicode/utf8"
 )
 
 var unsafeChars = regexp.MustCompile(`[^\w@%+=:,./-]`)
@@ -48,7 +49,10 @@ func (e *shEncoder) encode(input string) string {
 	var encoded strings.Builder
 	encoded.Grow(len(input))
 
-	for _, ir := range input {
+	for index, ir := range input {
+		// the bytes this rune was read from: for bytes that are not valid UTF-8 the rune is the
+		// replacement character, but the value must reach the shell byte for byte
+		_, width := utf8.DecodeRuneInString(input[index:])
 		// open or close a single-quote block
 		if ir == quote {
 			if inQuoteBlock {
@@ -66,7 +70,7 @@ func (e *shEncoder) encode(input string) string {
 			}
 		}
 		// pass on the input character
-		encoded.WriteRune(ir)
+		encoded.WriteString(input[index : index+width])
 	}
 	// close any pending quote block
 	if inQuoteBlock {
